@@ -26,8 +26,8 @@ ASSUMPTIONS = [
 ]
 
 OPS = ["same", "other", "touch", "adv0.4", "adv1", "adv2.5", "plain", "etag", "lm", "both", "list-first", "list-mid", "list-last", "weak",
-       "weaklist", "star", "etag0", "lm0", "both0"]
-MODS = ("same", "other", "touch")
+       "weaklist", "star", "etag0", "lm0", "both0", "other-keepm", "list-empty", "list-comma"]
+MODS = ("same", "other", "touch", "other-keepm")
 
 
 class VFS:
@@ -99,6 +99,12 @@ def run_history(ctx, vfs, iface, app, url_path, file_path, seq, start_frac, zone
         elif op == "other":
             write(b"B" * (len(content[0]) % 7 + 2) if len(content[0]) % 7 + 2 != len(content[0]) else b"B" * (len(content[0]) + 3))
             modified_since_resp = True
+        elif op == "other-keepm":
+            # replaced by a file of another size whose modification time was carried over (cp -p, rsync -t): only ctime moves
+            m_old = vfs.state[file_path]["m"]
+            write(b"C" * (len(content[0]) + 1 + ver[0] % 3))
+            vfs.state[file_path] = {"m": m_old, "c": clock}
+            modified_since_resp = True
         elif op == "touch":
             vfs.state[file_path] = {"m": clock, "c": clock}
             ver[0] += 1
@@ -121,6 +127,8 @@ def run_history(ctx, vfs, iface, app, url_path, file_path, seq, start_frac, zone
                     "list-first": [("If-None-Match", f'{j["etag"]}, "zzz"')],
                     "list-mid": [("If-None-Match", f'"zzz", {j["etag"]}, "yyy"')],
                     "list-last": [("If-None-Match", f'"zzz",{j["etag"]}')],
+                    "list-empty": [("If-None-Match", f', {j["etag"]},' if step % 2 else f'"a", , {j["etag"]}')],  # empty list members are legal (RFC 7230 7)
+                    "list-comma": [("If-None-Match", f'"foo,bar", {j["etag"]}')],  # a comma inside an entity-tag is legal (RFC 7232 2.3)
                     "weak": [("If-None-Match", "W/" + j["etag"])],
                     "weaklist": [("If-None-Match", f'"zzz", W/{j["etag"]}')],
                 }[base]
@@ -165,7 +173,7 @@ def run_history(ctx, vfs, iface, app, url_path, file_path, seq, start_frac, zone
                 ctx.mon("stale-304-check")
                 if must_full and st != 200:
                     why = "size-change" if j["size"] != cur["size"] else "timestamp-change"
-                    sec = "same-second" if int(j["m"]) == int(cur["m"]) else "different-second"
+                    sec = "same-second" if (int(j["m"]) == int(cur["m"]) and int(j["c"]) == int(cur["c"])) else "different-second"
                     vform = {"lm": "last-modified-only", "both": "etag+last-modified"}.get(base, "etag-form:" + base)
                     ctx.violation(f"stale-304|{vform}|{sec}|{why}", case,
                                   f"step {step} {op}: validators of version {j['ver']} (size {j['size']}, mtime {j['m']}) got 304 although the file is "
@@ -183,7 +191,7 @@ def run_history(ctx, vfs, iface, app, url_path, file_path, seq, start_frac, zone
     return nontriv
 
 
-REGRESSION = [("other", "both"), ("weaklist",), ("list-last",), ("other", "lm"), ("adv1", "touch", "etag"), ("same", "adv2.5", "etag0"),
+REGRESSION = [("adv1", "other-keepm", "lm"), ("adv2.5", "other-keepm", "both"), ("list-empty",), ("list-comma",), ("other", "both"), ("weaklist",), ("list-last",), ("other", "lm"), ("adv1", "touch", "etag"), ("same", "adv2.5", "etag0"),
               ("other", "adv1", "other", "lm0"), ("adv0.4", "same", "both"), ("touch", "weak"), ("adv1", "same", "lm")]
 
 
